@@ -147,6 +147,36 @@ def unit_corpus(a):
     return stats
 
 
+# ------------------------------------------------------------------ default-constructed objects: every fresh one starts at 0
+def check_defaults(case, stats):
+    text = case["text"]
+    stats.case(text, True, sample=case)
+    for attempt in range(3):
+        p = gh.Parser()           # default AstBuilder with its own default IdGenerator
+        c = gh.Compiler()         # default IdGenerator of its own
+        doc = p.parse(text)
+        ids = sorted(int(x) for x in collect_ids(doc, []))
+        if ids != list(range(len(ids))):
+            raise Violation(case, "a freshly constructed Parser() (attempt %d in this process) hands out AST ids %r, expected 0..%d" % (attempt + 1, ids[:12], len(ids) - 1))
+        pk = c.compile(dict(doc, uri="u"))
+        pids = sorted(int(x) for x in collect_ids(pk, []))
+        if pids != list(range(len(pids))):
+            raise Violation(case, "a freshly constructed Compiler() (attempt %d in this process) hands out pickle ids %r, expected 0..%d" % (attempt + 1, pids[:12], len(pids) - 1))
+        ev = gh.GherkinEvents(gh.GherkinEvents.Options(False, True, True))
+        out = list(ev.enum({"source": {"uri": "u", "data": text, "mediaType": "text/x.cucumber.gherkin+plain"}}))
+        eids = sorted(int(x) for x in collect_ids(out, []))
+        if eids != list(range(len(eids))):
+            raise Violation(case, "a freshly constructed GherkinEvents (attempt %d) hands out ids %r, expected 0..%d" % (attempt + 1, eids[:12], len(eids) - 1))
+
+
+def unit_defaults(a):
+    stats = Stats()
+    texts = ["Feature: f\n Scenario: s\n  Given x\n", "@t\nFeature: f\n Background:\n  Given b\n @s\n Scenario Outline: o\n  And <a>\n   | <a> |\n  Examples:\n   | a |\n   | 1 |\n   | 2 |\n",
+             "Feature: f\n Rule: r\n  Scenario: s\n   * x\n    \"\"\"\n    d\n    \"\"\"\n"]
+    sweep(stats, [{"sub": "defaults", "text": t} for t in texts], check_defaults)
+    return stats
+
+
 # ------------------------------------------------------------------ histories through one shared generator
 def run_stream(ev, text):
     out = list(ev.enum({"source": {"uri": URI, "data": text, "mediaType": "text/x.cucumber.gherkin+plain"}}))
@@ -224,12 +254,13 @@ def unit_history(a):
 
 
 def replay(case, stats):
-    return {"fresh": check_fresh, "history": check_history}[case["sub"]](case, stats)
+    return {"fresh": check_fresh, "history": check_history, "defaults": check_defaults}[case["sub"]](case, stats)
 
 
 def run(ctx):
     q = ctx.quick
     ctx.units("corpus", unit_corpus, [{}])
+    ctx.units("default-generators", unit_defaults, [{}])
     from . import magnitude
     magnitude.run_big(ctx, "c11", "check_fresh", "fresh")
     ctx.units("fresh-generator-model-docs", unit_fresh, [{"n": 600 if q else 6000, "seed": ctx.seed, "shard": i} for i in range(8 if q else 16)], procs=16)
